@@ -1,1 +1,97 @@
-From PLV Require Import Disc.CtxRegistryModel.
+(* C66 Local decomposition-rule contexts are isolated.
+   Statements only; every proof is `exact <lemma>` from Disc/CtxRegistryProofs.v.
+
+   Reading guide.  `run d0 f0 s` is the state of the heap/ContextVar model (Disc/CtxRegistryModel.v)
+   after the global schedule s : list (thread id * action), started from the global registries
+   (d0, f0); s is ANY list: any number of threads, any interleaving, any nesting.
+   `seen st t` is the pair of registry objects (all rules, fixed rules) thread t reaches through the
+   two ContextVars; list_decomps is a function of it (sees_determines_listing).
+   `apply_act r a` is the effect of one add_decomps/_fix_decomp call on the registry pair it hits.
+   `own_acts t 0 s2 = Some l` says: the enter/exit actions of t inside s2 are well bracketed (t is back
+   at the depth it started s2 with, and never left the block it was in) and l is the list of calls
+   t made in s2 at that depth; the actions of all other threads in s2 are unconstrained. *)
+From Coq Require Import List ZArith Bool Arith.
+From PLV Require Import Disc.CtxRegistryModel Disc.CtxRegistryProofs.
+Import ListNotations.
+
+(* what list_decomps returns to thread t depends only on what t reaches through its context *)
+Theorem sees_determines_listing : forall st t op,
+  view st t op = view_reg (fst (seen st t)) (snd (seen st t)) op.
+Proof. exact view_of_seen. Qed.
+Print Assumptions sees_determines_listing.
+
+(* For ALL interleavings the shared-heap model behaves like private per-thread stacks of registry
+   VALUES plus one global value (the semantics `sstep`, in which isolation holds by construction). *)
+Theorem refines_private_stacks : forall d0 f0 s t,
+  seen (run d0 f0 s) t = stop (srun (sinit d0 f0) s) t.
+Proof. exact refinement. Qed.
+Print Assumptions refines_private_stacks.
+
+(* what t sees inside a context = snapshot at its innermost entry (= what it saw just before the
+   enter) + its own later calls at that level; nothing any other thread does in s2 matters *)
+Theorem view_is_own_history : forall d0 f0 s1 s2 t l,
+  own_acts t 0 s2 = Some l ->
+  seen (run d0 f0 (s1 ++ (t, AEnter) :: s2)) t = fold_left apply_act l (seen (run d0 f0 s1) t).
+Proof. exact L_view_is_own_history. Qed.
+Print Assumptions view_is_own_history.
+
+(* the global registry (object 0) = initial + exactly the calls made by threads that were outside
+   every local context at the time of the call *)
+Theorem no_leak_global : forall d0 f0 s,
+  cell (run d0 f0 s) 0 = fold_left apply_act (global_acts (fun _ => 0) s) (d0, f0).
+Proof. exact L_no_leak_global. Qed.
+Print Assumptions no_leak_global.
+
+(* ... and that is what a thread with no open context sees (in particular after its last exit) *)
+Theorem outside_sees_global : forall d0 f0 s t, depth (run d0 f0 s) t = 0 ->
+  seen (run d0 f0 s) t = fold_left apply_act (global_acts (fun _ => 0) s) (d0, f0).
+Proof. exact L_outside_sees_global. Qed.
+Print Assumptions outside_sees_global.
+
+(* after the exit (normal or by exception) a whole enter..exit episode of t is invisible to EVERY
+   thread u (t included): everybody sees what he would see had t done nothing in between *)
+Theorem exit_restores : forall d0 f0 s1 s2 t l x u,
+  own_acts t 0 s2 = Some l -> (x = AExit \/ x = AExitExn) ->
+  seen (run d0 f0 (s1 ++ (t, AEnter) :: s2 ++ [(t, x)])) u = seen (run d0 f0 (s1 ++ others t s2)) u.
+Proof. exact L_episode_invisible. Qed.
+Print Assumptions exit_restores.
+
+(* nested block: after the exit t sees exactly what it saw before the matching enter *)
+Theorem exit_restores_nested : forall d0 f0 s1 s2 t l x,
+  own_acts t 0 s2 = Some l -> (x = AExit \/ x = AExitExn) -> 1 <= depth (run d0 f0 s1) t ->
+  seen (run d0 f0 (s1 ++ (t, AEnter) :: s2 ++ [(t, x)])) t = seen (run d0 f0 s1) t.
+Proof. exact L_exit_restores_nested. Qed.
+Print Assumptions exit_restores_nested.
+
+(* an action of t inside a local context (and any enter / exit / listing anywhere) never changes
+   what another thread sees *)
+Theorem other_threads_unaffected : forall d0 f0 s t u a, u <> t ->
+  (bracket_or_list a = true \/ 1 <= depth (run d0 f0 s) t) ->
+  seen (step (run d0 f0 s) (t, a)) u = seen (run d0 f0 s) u.
+Proof. exact L_other_threads_unaffected. Qed.
+Print Assumptions other_threads_unaffected.
+
+(* list_decomps returns a copy: listing, and mutating the returned collection, changes no registry
+   (definitional in the model; the tie checks it on the implementation) *)
+Theorem list_copy_isolated : forall st t op r,
+  step st (t, AList op) = st /\ step st (t, AListMut op r) = st.
+Proof. exact L_list_copy_isolated. Qed.
+Print Assumptions list_copy_isolated.
+
+(* non-vacuity: a concrete two-thread schedule meets the hypotheses used above, and the model
+   computes the expected listings *)
+Example hyps_satisfiable :
+  let d0 := assocD [(0%Z, [0%Z])] in
+  let f0 := assocF [] in
+  let a (r : Z) := AAdd 0%Z [r] in
+  let s1 := [(0, AEnter); (0, a 1%Z)] in
+  let s2 := [(1, a 5%Z); (0, a 2%Z); (0, AEnter); (0, AFix 0%Z 9%Z); (0, AExitExn);
+             (1, AEnter); (1, a 7%Z); (0, a 1%Z)] in
+  own_acts 0 0 s2 = Some [a 2%Z; a 1%Z] /\
+  1 <= depth (run d0 f0 s1) 0 /\
+  view (run d0 f0 (s1 ++ (0, AEnter) :: s2)) 0 0%Z = [0; 1; 2]%Z /\
+  view (run d0 f0 (s1 ++ (0, AEnter) :: s2)) 1 0%Z = [0; 5; 7]%Z /\
+  view (run d0 f0 (s1 ++ (0, AEnter) :: s2 ++ [(0, AExit)])) 0 0%Z = [0; 1]%Z /\
+  view (run d0 f0 (s1 ++ (0, AEnter) :: s2 ++ [(0, AExit); (0, AExitExn)])) 0 0%Z = [0; 5]%Z /\
+  global_acts (fun _ => 0) (s1 ++ (0, AEnter) :: s2) = [a 5%Z].
+Proof. vm_compute. repeat split; auto. Qed.
